@@ -21,8 +21,10 @@ RULE = (
     "-v/-vv/-vvv, --ansi, --no-ansi, no-interaction, help, version; long and short spellings; singletons, pairs, larger "
     "sets; all 2^7 minus contradictory pairs in thorough) inserted at every kind of position before '--' (before the path, "
     "inside it, right after it, among the arguments, at the end) in both orders, x handler behaviour {writes styled text at 4 "
-    "levels to both streams, asks a confirmation, raises} x streams claiming / denying ANSI. Control: the same tokens after "
-    "'--'. Clauses per switch as in the statement; handler-level clauses only when the base command's handler still runs. "
+    "levels to both streams, asks a confirmation (and, when the I/O is not interactive, ten more questions of every kind - plain, validated, choice by index / "
+    "name / integer, multi-select, confirmation - each of which must return the very default it was given), raises} x streams claiming / denying ANSI. Control: the same tokens after "
+    "'--', also with a switch as the last token right before '--'. Sequences: four runs with different switches on ONE application object, each compared with the same line on a "
+    "fresh application (a switch governs its own run only). Clauses per switch as in the statement; handler-level clauses only when the base command's handler still runs. "
     "non-trivial = variant with >= 1 switch not at the end; distinct by (switch set, positions class, spelling, handler kind, "
     "stream kind, tree shape)."
 )
@@ -89,6 +91,22 @@ class Env(object):
         self.RecStream, self.Script = RecStream, Script
 
 
+def more_questions(ChoiceQuestion, Question, ConfirmationQuestion):
+    colours = ["red", "green", "blue"]
+    out = [(Question("name?", "dflt"), "dflt"), (Question("nothing?"), None), (Question("number?", "5"), "5"), (ConfirmationQuestion("sure?", True), True),
+           (ChoiceQuestion("pick", colours, "1"), "1"), (ChoiceQuestion("pick", colours, 2), 2), (ChoiceQuestion("pick", colours, "green"), "green")]
+    q = ChoiceQuestion("pick some", colours, "0,2")
+    q.set_multi_select(True)
+    out.append((q, "0,2"))
+    q = ChoiceQuestion("pick some", colours, " 0 , 1 ")
+    q.set_multi_select(True)
+    out.append((q, " 0 , 1 "))
+    q = Question("validated?", "7")
+    q.set_validator(int)
+    out.append((q, "7"))
+    return out
+
+
 def behaviour_for(env, kind, answers):
     V, VV, D = env.flags
 
@@ -105,15 +123,36 @@ def behaviour_for(env, kind, answers):
             return 0
         if kind == "ask":
             answers.append(env.ConfirmationQuestion("proceed?", False).ask(io))
+            if not io.is_interactive():
+                # every kind of question returns its default - the very object it was given
+                from clikit.ui.components import ChoiceQuestion, Question
+
+                for q, d in more_questions(ChoiceQuestion, Question, env.ConfirmationQuestion):
+                    got = q.ask(io)
+                    if got is not d and not (type(got) is type(d) and got == d):
+                        answers.append(("not-the-default", type(q).__name__, repr(d), repr(got)))
+                    else:
+                        env.default_answers = getattr(env, "default_answers", 0) + 1
             return 0
         raise ValueError("handler failed on purpose")
     return behaviour
 
 
-def execute(env, tree, tokens, kind, ansi_streams):
-    """ansi_streams: bool (both streams) or (stdout claims ANSI, stderr claims ANSI)"""
+def execute(env, tree, tokens, kind, ansi_streams, reuse=None):
+    """ansi_streams: bool (both streams) or (stdout claims ANSI, stderr claims ANSI); reuse: a dict that keeps the
+    application object between calls"""
     if not isinstance(ansi_streams, (tuple, list)):
         ansi_streams = (ansi_streams, ansi_streams)
+    if reuse is not None and "app" in reuse:
+        app, log, taps, answers = reuse["app"], reuse["log"], reuse["taps"], reuse["answers"]
+        del taps[:], answers[:], log.calls[:]
+        out, err = env.RecStream(ansi_streams[0]), env.RecStream(ansi_streams[1])
+        inp = env.Script(["y\n", "y\n"])
+        try:
+            status = app.run(env.ArgvArgs(["prog"] + list(tokens)), inp, out, err)
+        except BaseException as e:
+            status = "raised %r" % (e,)
+        return dict(status=status, out=out.fetch(), err=err.fetch(), tap=taps[0] if taps else None, calls=[c for c in log.calls], answers=list(answers), reads=inp.reads), app
     log = T.HandlerLog()
     answers = []
     log.behaviour = behaviour_for(env, kind, answers)
@@ -130,13 +169,15 @@ def execute(env, tree, tokens, kind, ansi_streams):
         cfg.set_io_factory(tap)
 
     app, cfg = T.build_app(tree, env.api, log, default_config=True, name="my-app", version="1.2.3", tweak=tweak)
+    if reuse is not None:
+        reuse.update(app=app, log=log, taps=taps, answers=answers)
     out, err = env.RecStream(ansi_streams[0]), env.RecStream(ansi_streams[1])
     inp = env.Script(["y\n", "y\n"])
     try:
         status = app.run(env.ArgvArgs(["prog"] + list(tokens)), inp, out, err)
     except BaseException as e:
         status = "raised %r" % (e,)
-    return dict(status=status, out=out.fetch(), err=err.fetch(), tap=taps[0] if taps else None, calls=[c for c in log.calls], answers=answers, reads=inp.reads), app
+    return dict(status=status, out=out.fetch(), err=err.fetch(), tap=taps[0] if taps else None, calls=[c for c in log.calls], answers=list(answers), reads=inp.reads), app
 
 
 def base_lines(tree, rng, limit):
@@ -282,6 +323,48 @@ def judge_control(sh, env, tree, path, names, base, switches, kind, ansi_streams
             r["status"], b["status"], r["tap"], b["tap"], r["out"][:60], b["out"][:60]))
 
 
+def same_run(r, b):
+    return (r["status"] == b["status"] and r["out"] == b["out"] and r["err"] == b["err"] and r["tap"] == b["tap"] and len(r["calls"]) == len(b["calls"])
+            and [c["options"] for c in r["calls"]] == [c["options"] for c in b["calls"]] and r["answers"] == b["answers"] and r["reads"] == b["reads"])
+
+
+def judge_control_after_switch(sh, env, tree, base, last, after, kind, ansi_streams, record):
+    """A switch as the very last token before '--': the separator is not its value, and what follows still has no effect."""
+    b, _ = execute(env, tree, base + [last], kind, ansi_streams)
+    r, _ = execute(env, tree, base + [last, "--"] + after, kind, ansi_streams)
+    sh.count("control_runs")
+    if not same_run(r, b):
+        sh.violate("after-double-dash", record, "with %r right before '--', the tokens after '--' changed the run: status %r/%r tap %r/%r out %r/%r" % (
+            last, r["status"], b["status"], r["tap"], b["tap"], r["out"][:60], b["out"][:60]))
+
+
+def switch_sequences(sh, env, tree, rng, shape):
+    """One application object, several runs with different switches: each run is governed by its own switches only
+    (compared with the same line on a fresh application)."""
+    lines = base_lines(tree, rng, 1)
+    if not lines:
+        return
+    path, names, base = lines[0]
+    pool = [["-vvv"], ["-v"], [], ["-q"], ["-vv"], ["--no-ansi"], ["--ansi"], ["-n"], ["--", "-vvv", "-q"], ["-vvv", "-n"], ["-q", "-vvv"]]
+    for kind in ("write", "ask", "raise"):
+        seq = [rng.choice(pool) for _ in range(4)]
+        if kind == "write":
+            seq[0] = ["-vvv"]
+        ansi_streams = (rng.random() < 0.5, rng.random() < 0.5)
+        keep = {}
+        for i, sw in enumerate(seq):
+            tokens = base + sw
+            r, _ = execute(env, tree, tokens, kind, ansi_streams, reuse=keep)
+            f, _ = execute(env, tree, tokens, kind, ansi_streams)
+            sh.count("sequence_runs")
+            record = {"tree": tree, "kind": "switch-sequence", "handler": kind, "lines": [base + x for x in seq[:i + 1]], "ansi_streams": ansi_streams}
+            sh.case(("switch-sequence", kind, tuple(tuple(x) for x in seq[:i + 1]), shape), i > 0)
+            if not same_run(r, f):
+                sh.violate("switch-sequence", record, "run #%d %r on the application used for the earlier lines: status %r tap %r out %r err %r; on a fresh application: status %r tap %r out %r err %r" % (
+                    i, tokens, r["status"], r["tap"], r["out"][:50], r["err"][:50], f["status"], f["tap"], f["out"][:50], f["err"][:50]))
+                break
+
+
 def subsets(rng, tier):
     names = sorted(SW)
     out = [[n] for n in names]
@@ -365,6 +448,7 @@ def run_tree(sh, env, tree, rng, tier):
     shape = T.tree_shape(tree)
     help_on_every_path(sh, env, tree, rng, shape)
     ansi_switches_after_each_other(sh, env, tree, rng, shape)
+    switch_sequences(sh, env, tree, rng, shape)
     for path, names, base in base_lines(tree, rng, 4 if tier == "quick" else 6):
         for kind in ("write", "ask", "raise"):
             ansi_streams = (rng.random() < 0.5, rng.random() < 0.5)
@@ -415,6 +499,10 @@ def run_tree(sh, env, tree, rng, tier):
                 record = {"tree": tree, "base": base, "after_dd": toks, "handler": kind, "ansi_streams": ansi_streams}
                 sh.case(("control", tuple(sorted(sset)), kind, ansi_streams, shape), True)
                 judge_control(sh, env, tree, path, names, base, toks, kind, ansi_streams, record, b)
+                last = rng.choice(["-v", "--verbose", "-vv", "-q", "-n", "--no-ansi", "--ansi"])
+                record = {"tree": tree, "base": base, "last_before_dd": last, "after_dd": toks, "handler": kind, "ansi_streams": ansi_streams}
+                sh.case(("control-after-switch", last, tuple(sorted(sset)), kind, ansi_streams, shape), True)
+                judge_control_after_switch(sh, env, tree, base, last, toks, kind, ansi_streams, record)
 
 
 def plan(tier, seed):
@@ -440,12 +528,13 @@ def run(sh, spec):
         sh.count("trees")
         if done == 1:
             sh.sample({"first_command": tree[0]["name"], "base_lines": [b for _, _, b in base_lines(tree, sh.rng, 3)]})
+    sh.count("default_answers_observed", getattr(env, "default_answers", 0))
 
 
 def finalize(tier, merged):
     c = merged["counters"]
     inc = []
-    for k in ("variant_runs", "control_runs", "handler_level_checks", "help_checks", "version_checks", "help_path_runs", "ansi_sequence_runs"):
+    for k in ("variant_runs", "control_runs", "handler_level_checks", "help_checks", "version_checks", "help_path_runs", "ansi_sequence_runs", "sequence_runs", "default_answers_observed"):
         if not c.get(k):
             inc.append("counter %s is zero" % k)
     return {"inconclusive": inc}
